@@ -35,6 +35,8 @@ TEMPLATES = {
             ["x{k} = {{'a': p({k}, '{o}'),", "     'b': [1, 2]}}"],
             ["x{k} = p({k}, '''{o}", "tail{k}''')"]],
     'mlx2': [["v({k},", "  '{o}')"], ["(v({k}, '{o}'),", " )[0]"]],
+    # a bracketed statement with an empty docstring line inside (the empty line is not a template line)
+    'mlb3': [["x{k} = p({k},", "       '{o}')"], ["x{k} = [p({k}, '{o}'),", "       0][0]"], ["x{k} = {{'a': p({k}, '{o}'),", "     'b': 2}}"]],
     'ml3': [["x{k} = p({k},", "       '{o}',", "       )"],
             ["x{k} = [p({k}, '{o}'),", "       2,", "       3]"]],
     'tri3': [["x{k} = p({k}, '''{o}", "inner line {k}", "end{k}''')"],
@@ -53,7 +55,8 @@ TEMPLATES = {
     'asg': [["x{k} = p({k})"], ["x{k} = [p({k}), {k}][1]"]],
     'echo': [["v({k})"], ["(v({k}))"]],
     'prn': [["p({k}, '{o}')"]],
-    'exc': [["rz({k}, ValueError('m{k}'))"], ["(rz({k}, ValueError('m{k}: detail')))"], ["rze({k}, '1 +')"], ["rze({k}, 'x{k}.missing')"]],
+    'exc': [["rz({k}, ValueError('m{k}'))"], ["(rz({k}, ValueError('m{k}: detail')))"], ["rze({k}, '1 +')"], ["rze({k}, 'x{k}.missing')"],
+            ["rz({k}, ValueError('bad value 1.5 for item {k}.'))"], ["rz({k}, KeyError('a.b: c{k}'))"]],
     'star': [["from os.path import *"], ["from collections import *  # star"]],
     'pair2': [["x{k} = p({k}, '{o}')", "y{k} = {k}"]],
     'f9': [["if False:", "    y{k} = 0", "# a note in column 0", "else: x{k} = p({k}, '{o}')"],
@@ -242,6 +245,12 @@ def count_directives(line):
     return len([t for t in re.split(r',|\s+(?=[+-])', m.group(1)) if t.strip()])
 
 
+def has_f21(case):
+    """an empty line inside a statement, followed by a '...' line of the same statement (DocParse.tla HasF21)"""
+    ls = case['lines']
+    return any(ls[j][0] == 'blank' and ls[j][2] != 0 and ls[j + 1][0] in ('p2', 'bare') and ls[j + 1][2] == ls[j][2] for j in range(len(ls) - 1))
+
+
 def compare_parse(case, textlines):
     """returns list of (field, expected, observed)"""
     bad = []
@@ -264,6 +273,9 @@ def compare_parse(case, textlines):
     if case['err'] != 'none':
         if kind != 'ParseError':
             bad.append(('outcome', 'ParseError(%s)' % case['err'], kind if kind != 'parts' else 'parts'))
+        elif has_f21(case) and not any(b.get('shape') in ('badone', 'trunc2') or b.get('t') == 'p2txt' for b in case['blocks']):
+            # model and code agree that this docstring cannot be parsed - but it is well formed: known finding F21
+            bad.append(('empty_line_then_dots_statement_unparsable', 'parts', 'ParseError ' + str(got)[:120]))
         return bad
     if kind != 'parts':
         bad.append(('outcome', 'parts', '%s: %s' % (kind, got)))
